@@ -76,8 +76,8 @@ class Stats:
         self.subspaces.extend(o.subspaces)
         self.notes.extend(o.notes)
         self.budget_exhausted |= o.budget_exhausted
-        for s in o.samples:
-            if len(self.samples) < MAX_SAMPLES:
+        for s in o.samples[:2]:
+            if len(self.samples) < MAX_SAMPLES + 12:
                 self.samples.append(s)
         for sig, (n, fs) in o.failures.items():
             ent = self.failures.setdefault(sig, [0, []])
@@ -346,7 +346,7 @@ def write_evidence(prop, tier, seed, level, stats: Stats, rule, assumptions, wal
         "evaluations": int(stats.evaluations),
         "distinct_nontrivial": int(len(stats.nontrivial)),
         "rule": rule,
-        "samples": stats.samples[:MAX_SAMPLES] or ["(no sample recorded)"],
+        "samples": stats.samples[-MAX_SAMPLES:] or ["(no sample recorded)"],
         "generated_cases": int(stats.generated),
         "classes": dict(sorted(stats.classes.items(), key=lambda kv: (-kv[1], kv[0]))[:80]),
         "exhaustive_subspaces": stats.subspaces,
